@@ -22,6 +22,8 @@ package c10
 
 import (
 	"fmt"
+	"os"
+	"path/filepath"
 	"strings"
 
 	"github.com/google/pprof/internal/driver"
@@ -65,13 +67,36 @@ func profiles() map[string][]byte {
 		{Locs: []ap.Loc{L(0x1040, a, c), L(0x1030, b)}, Values: []int64{2, -1}},
 	}
 	out["recursion-shared-inline"] = drive.Encode(ap.Concretize(s, ap.Opts{}))
+	// functions whose source file exists on disk under two different source trees
+	// (srcA and srcB hold different text for the same relative name)
+	t := base()
+	hot, cold := ln("hot", "proj/hot.go", 2), ln("cold", "proj/cold.go", 1)
+	t.Stacks = []ap.Stack{
+		{Locs: []ap.Loc{L(0x1010, hot)}, Values: []int64{3, 30}},
+		{Locs: []ap.Loc{L(0x1010, hot), L(0x1020, cold)}, Values: []int64{1, 10}},
+	}
+	out["with-sources"] = drive.Encode(ap.Concretize(t, ap.Opts{}))
 	return out
+}
+
+// sourceTrees creates the two source trees and returns their roots.
+func sourceTrees() (string, string) {
+	root := filepath.Join(drive.Sandbox(), "src")
+	a, b := filepath.Join(root, "A"), filepath.Join(root, "B")
+	for _, d := range []struct{ dir, tag string }{{a, "tree A"}, {b, "tree B"}} {
+		os.MkdirAll(filepath.Join(d.dir, "proj"), 0755)
+		os.WriteFile(filepath.Join(d.dir, "proj", "hot.go"), []byte("package proj // "+d.tag+"\nfunc hot() { // "+d.tag+"\n}\n"), 0644)
+		os.WriteFile(filepath.Join(d.dir, "proj", "cold.go"), []byte("func cold() {} // "+d.tag+"\n"), 0644)
+	}
+	return a, b
 }
 
 // alphabet of history lines. Commands carry arguments that must stay local to
 // the command; option assignments persist.
 func alphabet(thorough bool) []string {
+	srcA, srcB := sourceTrees()
 	a := []string{
+		"list hot", "source_path=" + srcA, "source_path=" + srcB,
 		"top 1 a", "top -b", "top -cum", "tree b", "peek a", "traces", "tags x", "dot", "callgrind", "text c",
 		"focus=a", "hide=b", "tagroot=k", "tagfocus=x", "lines", "files", "noinlines=true", "sample_index=1", "nodecount=1", ":",
 	}
@@ -81,7 +106,7 @@ func alphabet(thorough bool) []string {
 	return a
 }
 
-var probes = []string{"top", "top -cum", "tree", "peek .", "traces", "tags", "dot", "callgrind", "raw", "proto"}
+var probes = []string{"top", "top -cum", "tree", "peek .", "traces", "tags", "dot", "callgrind", "raw", "proto", "list hot|cold"}
 
 func isAssignment(line string) bool {
 	if line == ":" {
